@@ -46,6 +46,7 @@ def render_ml(x, ind=0):
 def site_spans(text):
     """Independent line counter: for each `(E <k>` the 1-based first and last line of that form."""
     spans = {}
+    dup = set()
     for m in re.finditer(r"\(E (\d+)\b", text):
         start = m.start()
         depth = 0
@@ -69,7 +70,14 @@ def site_spans(text):
             i += 1
         lo = text.count("\n", 0, start) + 1
         hi = text.count("\n", 0, i) + 1
-        spans[int(m.group(1))] = (lo, hi)
+        k = int(m.group(1))
+        if k in spans:
+            dup.add(k)
+        spans[k] = (lo, hi)
+    # a site number used twice (templates nested at depth 2 may both use their fixed site 90) does not name one line:
+    # no fault is injected there
+    for k in dup:
+        del spans[k]
     return spans
 
 
